@@ -36,6 +36,7 @@ func init() {
 }
 
 var c10Baseline = -1
+var c10WorkerHangs = 0
 
 var errC10Injected = errors.New("c10: injected connection error")
 var errC10Skip = errors.New("c10: phase not reached")
@@ -471,6 +472,9 @@ func c10RunCase(b *c10B, k int, fault string, watchdog time.Duration) c10Obs {
 
 	// the caller always closes the client in the end
 	doClose()
+	if obs.hung {
+		watchdog /= 4 // the case already failed: do not spend the full watchdog on every further wait
+	}
 	t2 := time.NewTimer(watchdog)
 	select {
 	case <-closeRet:
@@ -540,10 +544,14 @@ func c10WorkerAnswer(req string) string {
 		return "bad-scenario"
 	}
 	k, _ := strconv.Atoi(f[2])
+	if c10WorkerHangs >= 2 {
+		return "aborted" // this process has seen two expiries: let the orchestrator confirm them first
+	}
 	o := c10RunCase(b, k, f[3], c10Watchdog)
 	h := "0"
 	if o.hung {
 		h = "1"
+		c10WorkerHangs++
 	}
 	return h + "|" + o.String()
 }
@@ -631,9 +639,12 @@ func c10RunAll(reqs []c10Req) []string {
 				}
 				ans := pool.runOnce(strs)
 				for i, a := range ans {
-					if a == "skipped" && confirmed.Load() >= 3 {
-						out[lo+i] = "aborted"
-						continue
+					if a == "aborted" || (a == "skipped" && confirmed.Load() >= 3) {
+						if confirmed.Load() >= 3 {
+							out[lo+i] = "aborted"
+							continue
+						}
+						a = pool.runOnce([]string{strs[i]})[0] // not refuted yet: run it after all
 					}
 					if a == "skipped" || a == "crash" || a == "timeout" || strings.HasPrefix(a, "1|") {
 						// a watchdog expiry is re-run once alone, in a fresh process, before it counts
